@@ -143,10 +143,14 @@ void eval_factorization(Ctx &x, int opi, const OpSpec &op, long info, bool check
                         const std::vector<cld> &Xout, int solve_trans, bool diag_check) {
     Case &c = x.c; Outcome &o = x.out;
     int n = c.M.n;
-    const std::vector<cld> &vals = c.values[op.values_id];
+    // the matrix that was factored: A as it is after the call (the expert driver may have equilibrated it in place)
+    std::vector<cld> vals = x.drv->get_A_values();
     Dense Md = csc_to_dense(c.M, vals);
     Dense Amath = c.stype_nr ? transpose(Md) : Md;
-    const RefInfo &ri = ref_for(x, op.values_id, Amath);
+    bool scaled = (op.kind == OP_GSSVX && op.x.fact == 1);
+    RefInfo ri_local;
+    if (scaled) ri_local = ref_analyse(Amath, false);
+    const RefInfo &ri = scaled ? ri_local : ref_for(x, op.values_id, Amath);
     ld eps = prec_eps(c.prec);
     if (info != 0) {
         if (info < 0) { add_viol(o, primary_property(c.profile), "info_negative", fmt("info=%ld", info), opi); return; }
@@ -202,6 +206,300 @@ void eval_factorization(Ctx &x, int opi, const OpSpec &op, long info, bool check
     }
 }
 
+// C06: singular inputs.  k* = first column (A*Pc order, 0-based) at which the library itself saw an all-zero candidate set.
+void eval_singular(Ctx &x, int opi, const OpSpec &op, long info, const XOut &xo, uint64_t b_hash0, uint64_t x_hash0, const std::vector<cld> &Bin) {
+    Case &c = x.c; Outcome &o = x.out; int n = c.M.n;
+    long kstar = monitor_first_zero_col();
+    long infof = (op.kind == OP_GSSVX && info == n + 1) ? 0 : info;
+    if (infof < 0 || infof > n) { add_viol(o, "C06", "info_out_of_range", fmt("info=%ld n=%d", info, n), opi); return; }
+    if (kstar >= 0) {
+        o.probes["singular_runs"]++;
+        if (infof != kstar + 1) add_viol(o, "C06", "info_not_first_zero_column", fmt("first all-zero candidate set at column %ld (0-based), info=%ld", kstar, info), opi);
+    } else if (infof != 0) add_viol(o, "C06", "info_without_zero_pivot", fmt("info=%ld but no column had an all-zero candidate set", info), opi);
+    // independent expectation from the structure of the nonzero values
+    std::vector<int> pc = x.drv->get_perm_c(), pr = x.drv->get_perm_r();
+    if (!is_perm(pc, n)) { add_viol(o, "C06", "perm_c_not_bijection", "perm_c is not a bijection after a singular return", opi); return; }
+    for (int v : pr) if (v < -1 || v >= n) { add_viol(o, "C06", "perm_r_out_of_range", fmt("perm_r entry %d", v), opi); break; }
+    const std::vector<cld> &vals = c.values[op.values_id];
+    Mat nz; nz.n = n; nz.colptr.assign(1, 0);
+    for (int j = 0; j < n; ++j) { for (int k = c.M.colptr[j]; k < c.M.colptr[j + 1]; ++k) if (vals[k] != cld(0, 0)) nz.rowind.push_back(c.M.rowind[k]); nz.colptr.push_back((int)nz.rowind.size()); }
+    std::vector<int> order(n); for (int j = 0; j < n; ++j) order[pc[j]] = j;
+    long hall = first_struct_deficient(nz, order);
+    long ksym = first_symbolic_empty(nz, order, pr);   // exact zero guaranteed at this position (0-based) or -1
+    bool generic = c.tags.count("valclass") && (c.tags["valclass"] == 1 || c.tags["valclass"] == 2 || c.tags["valclass"] == 5 || c.tags["valclass"] == 0);
+    bool dup = c.family.find("duplicate_column") != std::string::npos;
+    if (hall > 0) o.probes["structurally_singular_runs"]++;
+    if (ksym >= 0) {
+        long ks = ksym + 1;
+        o.probes["structural_zero_column_runs"]++;
+        if (infof == 0) add_viol(o, "C06", "structurally_singular_not_reported", fmt("column %ld of A*Pc has a structurally empty candidate set but info=%ld", ks, info), opi);
+        else if (infof > ks) add_viol(o, "C06", "info_after_structural_deficiency", fmt("structurally empty candidate set at column %ld but info=%ld", ks, info), opi);
+        else if (infof < ks) {
+            // between the first structurally rank-deficient leading block (hall) and the first structurally empty candidate set
+            // the exact-arithmetic zero shows as cancellation: an exact floating-point zero there is legitimate, before it is not
+            if (generic && !dup && !(hall > 0 && infof >= hall)) add_viol(o, "C06", "info_before_structural_deficiency", fmt("generic values: leading blocks are structurally nonsingular up to column %ld (first structurally empty candidate set at %ld) but info=%ld", hall, ks, info), opi);
+            else o.excl[generic && !dup ? "cancellation_zero_before_structural_zero" : "nongeneric_early_zero"]++;
+        }
+    } else if (hall > 0) {
+        // rank deficiency that only shows as cancellation between computed quantities: a tiny residue instead of an exact zero is legitimate
+        o.excl["inexact_cancellation_class"]++;
+    } else if (infof != 0) {
+        if (dup) o.excl["inexact_cancellation_class"]++;
+        else if (generic) {
+            const RefInfo &ri = ref_for(x, op.values_id, csc_to_dense(c.M, vals));
+            if (!ri.singular && ri.cond1 < 0.1L / prec_eps(c.prec)) add_viol(o, "C06", "singular_reported_on_nonsingular", fmt("info=%ld cond1=%.3Le", info, ri.cond1), opi);
+            else o.excl["numerically_singular"]++;
+        } else o.excl["nongeneric_values"]++;
+    }
+    if (infof > 0) {
+        // no solution written
+        if (op.kind == OP_GSSV || op.kind == OP_ROUTE) { if (x.drv->B_hash() != b_hash0) add_viol(o, "C06", "B_modified_on_singular", fmt("info=%ld", info), opi); }
+        else if (op.kind == OP_GSSVX) {
+            if (x.drv->X_hash() != x_hash0) add_viol(o, "C06", "X_modified_on_singular", fmt("info=%ld", info), opi);
+            // B at most scaled by the reported equilibration
+            std::vector<cld> Bout = x.drv->get_B();
+            bool rowequ = xo.equed == 1 || xo.equed == 3, colequ = xo.equed == 2 || xo.equed == 3;
+            bool notran = c.stype_nr ? (op.x.trans != 0) : (op.x.trans == 0);
+            for (int j = 0; j < c.nrhs; ++j) for (int i = 0; i < n; ++i) {
+                ld s = notran ? (rowequ ? xo.R[i] : 1) : (colequ ? xo.C[i] : 1);
+                cld want = Bin[(size_t)j * n + i] * s, got = Bout[(size_t)j * n + i];
+                if (absl_(got - want) > 2 * prec_eps(c.prec) * absl_(want)) { add_viol(o, "C06", "B_not_scaled_as_reported", fmt("B(%d,%d) equed=%d", i, j, xo.equed), opi); j = c.nrhs; break; }
+            }
+        }
+        // returned objects safe to inspect
+        if (x.drv->have_LU()) { LUDump d; x.drv->dump_LU(d); if (!d.ok) add_viol(o, "C06", "factors_unsafe_to_inspect", d.why, opi); }
+    } else if (kstar < 0 && hall == 0) {
+        o.probes["sing_profile_nonsingular_runs"]++;
+    }
+}
+
+// C07 / C12 / C13: expert driver.  `Ain` = values of A before this call, `orig` = original (never equilibrated) values.
+struct SvxState { bool valid = false; int equed = 0; std::vector<ld> R, C; uint64_t lu_hash = 0; std::vector<int> pr, pc; };
+
+void eval_svx(Ctx &x, int opi, const OpSpec &op, const XOut &xo, const std::vector<cld> &Ain, const std::vector<cld> &Bin,
+              uint64_t a_hash0, uint64_t b_hash0, uint64_t x_hash0, SvxState &st) {
+    Case &c = x.c; Outcome &o = x.out; int n = c.M.n, nrhs = c.nrhs;
+    ld eps = prec_eps(c.prec), ee = eps_eff(c.prec);
+    long info = xo.info;
+    bool factored = op.x.fact == 2;
+    const std::vector<cld> &orig = c.values[op.values_id];
+    Dense Morig = csc_to_dense(c.M, orig);
+    Dense Aorig = c.stype_nr ? transpose(Morig) : Morig;
+    const RefInfo &ri0 = ref_for(x, op.values_id, Aorig);
+    if (ri0.singular) { o.excl["ref_singular"]++; return; }
+    if (!(info == 0 || info == n + 1)) {
+        if (info > 0 && info <= n && ri0.cond1 > 0.1L / eps) { o.excl["ill_conditioned_info_gt0"]++; return; }
+        add_viol(o, "C07", "info_not_0_or_n_plus_1", fmt("info=%ld n=%d cond1=%.3Le", info, n, ri0.cond1), opi); return;
+    }
+    o.probes["svx_calls_checked"]++;
+    o.probes[std::string("svx_equed_") + std::to_string(xo.equed)]++;
+    o.probes[std::string("svx_trans_") + std::to_string(op.x.trans) + (c.stype_nr ? "_NR" : "_NC") + "_fact" + std::to_string(op.x.fact)]++;
+    bool rowequ = xo.equed == 1 || xo.equed == 3, colequ = xo.equed == 2 || xo.equed == 3;
+    // effective transpose flag on the CSC view (the driver flips it for row-wise storage)
+    bool notran = c.stype_nr ? (op.x.trans != 0) : (op.x.trans == 0);
+    std::vector<cld> Aout = x.drv->get_A_values();
+    // ---- A_out = diag(R)^a M_in diag(C)^b  (on the CSC view)
+    if (factored) {
+        if (x.drv->A_hash() != a_hash0) add_viol(o, "C08", "A_modified_by_FACTORED_call", "A changed although fact=FACTORED", opi);
+        if (st.valid) {
+            LUDump d; x.drv->dump_LU(d);
+            if (!d.ok || d.bits_hash != st.lu_hash) add_viol(o, "C08", "LU_modified_by_FACTORED_call", "factors changed although fact=FACTORED", opi);
+            if (x.drv->get_perm_r() != st.pr || x.drv->get_perm_c() != st.pc) add_viol(o, "C08", "perm_modified_by_FACTORED_call", "permutations changed although fact=FACTORED", opi);
+            if (xo.equed != st.equed) add_viol(o, "C07", "equed_changed_by_FACTORED_call", fmt("equed %d -> %d", st.equed, xo.equed), opi);
+        }
+    } else if (xo.equed == 0) {
+        if (x.drv->A_hash() != a_hash0) add_viol(o, "C07", "A_modified_without_equilibration", "equed=NOEQUIL but A differs bitwise", opi);
+    } else {
+        for (int j = 0; j < n; ++j) for (int k = c.M.colptr[j]; k < c.M.colptr[j + 1]; ++k) {
+            int i = c.M.rowind[k];
+            cld want = Ain[k] * (rowequ ? xo.R[i] : 1.0L) * (colequ ? xo.C[j] : 1.0L);
+            if (absl_(Aout[k] - want) > 3 * eps * absl_(want) * (prec_is_complex(c.prec) ? 2 : 1)) { add_viol(o, "C07", "A_not_scaled_as_reported", fmt("entry (%d,%d) equed=%d", i, j, xo.equed), opi); j = n; break; }
+        }
+        if (op.x.fact == 0) add_viol(o, "C07", "equilibrated_without_request", fmt("fact=DOFACT but equed=%d", xo.equed), opi);
+    }
+    // ---- B_out = diag(S) B_in
+    std::vector<cld> Bout = x.drv->get_B();
+    bool bscaled = (notran && rowequ) || (!notran && colequ);
+    if (!bscaled) { if (x.drv->B_hash() != b_hash0) add_viol(o, "C07", "B_modified_without_scaling", fmt("equed=%d trans=%d", xo.equed, op.x.trans), opi); }
+    else for (int j = 0; j < nrhs; ++j) for (int i = 0; i < n; ++i) {
+        ld sc = notran ? xo.R[i] : xo.C[i];
+        cld want = Bin[(size_t)j * n + i] * sc;
+        if (absl_(Bout[(size_t)j * n + i] - want) > 2 * eps * absl_(want)) { add_viol(o, "C07", "B_not_scaled_as_reported", fmt("B(%d,%d) equed=%d trans=%d", i, j, xo.equed, op.x.trans), opi); j = nrhs; break; }
+    }
+    if (x.drv->X_hash() == x_hash0 && nrhs > 0) add_viol(o, info == n + 1 ? "C12" : "C07", "X_not_delivered", fmt("info=%ld", info), opi);
+    // ---- the equilibrated system and its factors
+    Dense Ms = csc_to_dense(c.M, Aout);                      // scaled CSC view (what was factored)
+    Dense As = c.stype_nr ? transpose(Ms) : Ms;              // user's orientation, scaled
+    int t = op.x.trans;
+    Dense Aeff_orig = t == 0 ? Aorig : t == 1 ? transpose(Aorig) : conj_transpose(Aorig);
+    Dense Aeff_s = t == 0 ? As : t == 1 ? transpose(As) : conj_transpose(As);
+    RefInfo ris = ref_analyse(As, true);
+    if (ris.singular) { o.excl["ref_singular_after_scaling"]++; return; }
+    LUDump d; x.drv->dump_LU(d);
+    std::vector<int> pr = x.drv->get_perm_r(), pc = x.drv->get_perm_c();
+    Dense L, U;
+    if (!d.ok || !is_perm(pr, n) || !is_perm(pc, n) || !expand_LU(d, L, U)) { add_viol(o, "C09", "structure", "factors unusable after expert driver: " + d.why, opi); return; }
+    if (!finite_factors(L, U, c.prec)) { o.excl["overflow_in_factors"]++; return; }
+    if (!factored) {
+        std::vector<std::string> es; check_structure(d, pr, pc, es);
+        for (auto &e : es) add_viol(o, "C09", "structure", e, opi);
+        FactorCheck fc; check_factor(Ms, pr, pc, L, U, c.prec, op.x.u, op.x.usepr != 0, true, fc);
+        for (auto &e : fc.errs_a) add_viol(o, "C02", "reconstruction", e, opi);
+        for (auto &e : fc.errs_b) add_viol(o, "C02", "multiplier_bound", e, opi);
+        for (auto &e : fc.errs_c) add_viol(o, "C02", "diagonal_preference", e, opi);
+        o.probes["factorizations_checked"]++;
+    }
+    st.valid = true; st.equed = xo.equed; st.R = xo.R; st.C = xo.C; st.lu_hash = d.bits_hash; st.pr = pr; st.pc = pc;
+    // growth = max|L||U| / max|A_s|
+    ld maxA = 0, maxW = 0;
+    for (auto &v : Ms.a) maxA = std::max(maxA, absl_(v));
+    for (int i = 0; i < n; ++i) for (int j = 0; j < n; ++j) { ld w = 0; int km = std::min(i, j); for (int k = 0; k <= km; ++k) w += absl_(L.at(i, k)) * absl_(U.at(k, j)); maxW = std::max(maxW, w); }
+    ld growth = maxA > 0 ? maxW / maxA : 1;
+    ld cond_used = notran == !c.stype_nr ? ris.cond1 : ris.condinf;   // placeholder, refined below
+    // norm selection: 1-norm of the user's A when A X = B is solved, inf-norm when a transposed system is solved
+    bool user_notran = (t == 0);
+    cond_used = user_notran ? ris.cond1 : ris.condinf;
+    bool contracting = cond_used * growth * n * ee <= 1e-3L;
+    if (contracting) o.probes["svx_contracting_class"]++; else o.excl["svx_not_contracting"]++;
+    std::vector<cld> X = x.drv->get_X();
+    bool xfinite = true; for (auto &v : X) if (!(absl_(v) < INFINITY)) xfinite = false;
+    // row variation sigma(A,x) = max_i(|A||x|+|b|)_i / min_i(...)_i of the equilibrated system: fixed-precision refinement
+    // only reaches a backward error of order (n+1)eps when cond * sigma * eps is small (Higham, Accuracy and Stability, Thm 12.4)
+    ld sigma = 1;
+    if (xfinite) for (int j = 0; j < nrhs; ++j) {
+        ld mx = 0, mn = INFINITY;
+        for (int i = 0; i < n; ++i) {
+            ld sc = 1; if (notran && colequ) sc = xo.C[i]; else if (!notran && rowequ) sc = xo.R[i];
+            (void)sc;
+        }
+        for (int i = 0; i < n; ++i) {
+            ld den = absl_(Bout[(size_t)j * n + i]);
+            for (int k = 0; k < n; ++k) {
+                ld sc = 1; if (notran && colequ) sc = xo.C[k]; else if (!notran && rowequ) sc = xo.R[k];
+                den += absl_(Aeff_s.at(i, k)) * absl_(X[(size_t)j * n + k]) / sc;
+            }
+            mx = std::max(mx, den); mn = std::min(mn, den);
+        }
+        if (mn > 0) sigma = std::max(sigma, mx / mn); else sigma = INFINITY;
+    }
+    bool skeel_ok = cond_used * sigma * (n + 1) * ee <= 1e-3L;
+    if (contracting && !skeel_ok) o.excl["row_variation_too_large_for_tight_berr"]++;
+    // ---- C07: X solves the original system
+    if (nrhs > 0 && xfinite) {
+        std::vector<ld> w = true_berr(Aeff_orig, Bin, X, nrhs);
+        if (contracting && skeel_ok) for (int j = 0; j < nrhs; ++j)
+            if (!(w[j] <= (4.0L * (n + 1) + 8) * ee)) { add_viol(o, "C07", "backward_error_of_X", fmt("rhs %d: componentwise backward error %.3Le > %.3Le (trans=%d %s fact=%d equed=%d)", j, w[j], (4.0L * (n + 1) + 8) * ee, t, c.stype_nr ? "NR" : "NC", op.x.fact, xo.equed), opi); break; }
+    } else if (nrhs > 0) { if (contracting) add_viol(o, "C07", "nonfinite_solution", "X has non-finite entries in the contracting class", opi); else o.excl["solution_overflows_precision"]++; }
+    // ---- C07 (all classes): unrefined solve with the returned factors, on the scaled system
+    if (nrhs > 0) {
+        // B currently holds the scaled right-hand side; solve it in place with ?gstrs
+        std::vector<cld> Bs = Bout;
+        long gi = x.drv->call_gstrs(t);
+        if (gi != 0) add_viol(o, "C07", "gstrs_rejects_trans", fmt("?gstrs returned info=%ld for trans=%d", gi, t), opi);
+        else {
+            std::vector<cld> Xu = x.drv->get_B();
+            bool fin = true; for (auto &v : Xu) if (!(absl_(v) < INFINITY)) fin = false;
+            if (fin) {
+                std::vector<std::string> se; ld mr = 0;
+                // factors are those of the scaled CSC view; the system solved is op(A_s)
+                Dense AeffM; bool etrans;
+                if (!c.stype_nr) { AeffM = Aeff_s; etrans = t != 0; } else { AeffM = Aeff_s; etrans = t == 0; }
+                check_solve(AeffM, etrans, pr, pc, L, U, Bs, Xu, nrhs, c.prec, se, &mr);
+                for (auto &e : se) add_viol(o, "C07", "unrefined_residual", e + fmt(" (trans=%d %s)", t, c.stype_nr ? "NR" : "NC"), opi);
+                o.probes["svx_unrefined_solves_checked"]++;
+            } else o.excl["solution_overflows_precision"]++;
+        }
+    }
+    // ---- C12: rcond, info = n+1, pivot growth
+    {
+        if ((info == n + 1) != (xo.rcond < eps)) add_viol(o, "C12", "info_n_plus_1_rule", fmt("info=%ld rcond=%.3Le eps=%.3Le", info, xo.rcond, eps), opi);
+        if (info == n + 1) o.probes["svx_info_n_plus_1"]++;
+        // reference bounds
+        const Dense &inv = ris.inv;
+        ld normA = user_notran ? ris.norm1 : ris.norminf;
+        ld ninv = 0, nev = 0;
+        if (user_notran) { for (int j = 0; j < n; ++j) { ld sc = 0; for (int i = 0; i < n; ++i) sc += absl_(inv.at(i, j)); ninv = std::max(ninv, sc); }
+                           for (int i = 0; i < n; ++i) { cld sr = 0; for (int j = 0; j < n; ++j) sr += inv.at(i, j); nev += absl_(sr) / n; } }
+        else { for (int i = 0; i < n; ++i) { ld sr = 0; for (int j = 0; j < n; ++j) sr += absl_(inv.at(i, j)); ninv = std::max(ninv, sr); }
+               for (int j = 0; j < n; ++j) { cld sc = 0; for (int i = 0; i < n; ++i) sc += inv.at(i, j); nev += absl_(sc) / n; } }
+        bool admitted = cond_used * growth * n * ee <= 1e-3L && op.x.u >= 0.1;
+        if (admitted && normA > 0 && ninv > 0) {
+            ld lo = 1 / (normA * ninv), hi = 1 / (normA * nev), tau = 1e-2L;
+            o.probes["svx_rcond_checked"]++;
+            if (x.ro.verbose) {
+                // direct test of the sparse triangular solves against the dense factors
+                for (int which = 0; which < 2; ++which) {
+                    std::vector<cld> v(n); for (int i = 0; i < n; ++i) v[i] = cld(1.0L / n, 0);
+                    std::vector<cld> ref = v;
+                    if (which == 0) { for (int i = 0; i < n; ++i) { cld s2 = ref[i]; for (int j = 0; j < i; ++j) s2 -= L.at(i, j) * ref[j]; ref[i] = s2; } x.drv->call_trsv("L", "N", "U", v); }
+                    else { for (int i = n - 1; i >= 0; --i) { cld s2 = ref[i]; for (int j = i + 1; j < n; ++j) s2 -= U.at(i, j) * ref[j]; ref[i] = s2 / U.at(i, i); } x.drv->call_trsv("U", "N", "N", v); }
+                    ld dmax = 0, rmax = 0; for (int i = 0; i < n; ++i) { dmax = std::max(dmax, absl_(v[i] - ref[i])); rmax = std::max(rmax, absl_(ref[i])); }
+                    fprintf(stderr, "[trsv %s] max diff %.3Le (ref max %.3Le)\n", which ? "U" : "L", dmax, rmax);
+                }
+                // dense (LU)^{-1} norm for comparison
+                Dense LUm(n); for (int i = 0; i < n; ++i) for (int j = 0; j < n; ++j) { cld r = 0; int km = std::min(i, j); for (int k = 0; k <= km; ++k) r += L.at(i, k) * U.at(k, j); LUm.at(i, j) = r; }
+                RefInfo rl = ref_analyse(LUm, false);
+                fprintf(stderr, "[rcond] op %d equed %d trans %d normA %.6Le ninv %.6Le nev %.6Le rcond %.6Le lo %.6Le hi %.6Le cond1(LU) %.6Le condinf(LU) %.6Le norm1(LU) %.6Le\n", opi, xo.equed, t, normA, ninv, nev, xo.rcond, lo, hi, rl.cond1, rl.condinf, rl.norm1);
+            }
+            if (!(xo.rcond >= lo * (1 - tau))) add_viol(o, "C12", "rcond_below_true_reciprocal_condition", fmt("rcond=%.6Le < 1/(|A||inv A|)=%.6Le (norm %s, trans=%d %s, cond %.3Le growth %.3Le n %d)", xo.rcond, lo, user_notran ? "1" : "inf", t, c.stype_nr ? "NR" : "NC", cond_used, growth, n), opi);
+            if (!(xo.rcond <= hi * (1 + tau))) add_viol(o, "C12", "rcond_above_estimator_upper_bound", fmt("rcond=%.6Le > 1/(|A||inv(A)e/n|)=%.6Le (norm %s, trans=%d %s)", xo.rcond, hi, user_notran ? "1" : "inf", t, c.stype_nr ? "NR" : "NC"), opi);
+        } else o.excl["rcond_class_not_admitted"]++;
+        // pivot growth recomputed from the returned factors
+        std::vector<int> ipc(n); for (int cc = 0; cc < n; ++cc) ipc[pc[cc]] = cc;
+        ld rpg = INFINITY;
+        bool cpx = prec_is_complex(c.prec);
+        // complex magnitudes by |re|+|im|, the convention of ?PivotGrowth (and of LAPACK's CABS1)
+        auto mag = [&](cld v) { return cpx ? abs1_(v) : fabsl(v.real()); };
+        for (int j = 0; j < n; ++j) {
+            ld ma = 0, mu = 0; int cc = ipc[j];
+            for (int k = c.M.colptr[cc]; k < c.M.colptr[cc + 1]; ++k) ma = std::max(ma, mag(Aout[k]));
+            for (int i = 0; i <= j; ++i) mu = std::max(mu, mag(U.at(i, j)));
+            rpg = std::min(rpg, mu == 0 ? 1.0L : ma / mu);
+        }
+        if (!factored || true) {
+            ld tol = (cpx ? 16 : 4) * eps;
+            if (!(fabsl(xo.rpg - rpg) <= tol * rpg)) add_viol(o, "C12", "pivot_growth_mismatch", fmt("recip_pivot_growth=%.9Le, recomputed min_j max|A_j|/max|U_j| = %.9Le", xo.rpg, rpg), opi);
+            o.probes["svx_rpg_checked"]++;
+        }
+    }
+    // ---- C13: berr truthful, ferr dominating (in the coordinates the driver refined: scaled system, requested transpose)
+    if (nrhs > 0 && xfinite) {
+        // scaled solution: X_s = X / C (no transpose, column scaled) or X / R (transpose, row scaled)
+        std::vector<cld> Xs = X;
+        for (int j = 0; j < nrhs; ++j) for (int i = 0; i < n; ++i) {
+            ld sc = 1;
+            if (notran && colequ) sc = xo.C[i]; else if (!notran && rowequ) sc = xo.R[i];
+            Xs[(size_t)j * n + i] = X[(size_t)j * n + i] / sc;
+        }
+        std::vector<ld> w = true_berr(Aeff_s, Bout, Xs, nrhs, prec_is_complex(c.prec));
+        // exact solution of the system the driver refined (equilibrated data as stored), mapped back like X
+        std::vector<cld> Xref;
+        bool haveref = ref_solve(Aeff_s, Bout, nrhs, Xref);
+        if (haveref) for (int j = 0; j < nrhs; ++j) for (int i = 0; i < n; ++i) {
+            ld sc = 1;
+            if (notran && colequ) sc = xo.C[i]; else if (!notran && rowequ) sc = xo.R[i];
+            Xref[(size_t)j * n + i] *= sc;
+        }
+        for (int j = 0; j < nrhs; ++j) {
+            ld b = xo.berr[j], f = xo.ferr[j];
+            if (!(b >= 0) || !(f >= 0) || !(f < INFINITY)) { add_viol(o, "C13", "bounds_not_finite_nonnegative", fmt("berr=%.3Le ferr=%.3Le", b, f), opi); break; }
+            ld tol = 2.0L * (n + 2) * ee + 1e-6L * w[j];
+            if (!(fabsl(b - w[j]) <= tol)) { add_viol(o, "C13", "berr_not_truthful", fmt("rhs %d: berr=%.6Le but true componentwise backward error of the returned X is %.6Le (trans=%d %s equed=%d)", j, b, w[j], t, c.stype_nr ? "NR" : "NC", xo.equed), opi); break; }
+            o.probes["svx_berr_checked"]++;
+            if (op.x.u >= 0.1 && cond_used < 1 / sqrtl(eps) && growth * n * ee * cond_used <= 1e-3L && skeel_ok) {
+                if (!(b <= 4.0L * (n + 1) * ee)) { add_viol(o, "C13", "berr_not_small", fmt("rhs %d: berr=%.3Le > 4(n+1)eps=%.3Le, cond=%.3Le", j, b, 4.0L * (n + 1) * ee, cond_used), opi); break; }
+                o.probes["svx_berr_small_checked"]++;
+            }
+            if (haveref && op.x.u >= 0.1 && cond_used < 0.1L / eps && growth * n * ee <= 1e-3L) {
+                ld en = 0, xn = 0;
+                for (int i = 0; i < n; ++i) { en = std::max(en, absl_(X[(size_t)j * n + i] - Xref[(size_t)j * n + i])); xn = std::max(xn, absl_(X[(size_t)j * n + i])); }
+                if (xn > 0 && !(en / xn <= 10 * f + 4 * eps)) { add_viol(o, "C13", "ferr_does_not_dominate", fmt("rhs %d: |X-Xtrue|/|X|=%.3Le > 10*ferr=%.3Le (cond=%.3Le trans=%d equed=%d)", j, en / xn, 10 * f, cond_used, t, xo.equed), opi); break; }
+                o.probes["svx_ferr_checked"]++;
+            }
+        }
+    }
+}
+
 std::vector<cld> strip_ld(const std::vector<cld> &b, int n, int ldb, int nrhs) {
     std::vector<cld> o((size_t)n * nrhs);
     for (int j = 0; j < nrhs; ++j) for (int i = 0; i < n; ++i) o[(size_t)j * n + i] = b[(size_t)j * ldb + i];
@@ -237,6 +535,12 @@ Outcome run_case(Case &c, const RunnerOpts &ro) {
         s.set("ops", ops);
         out.sample = s;
     }
+    // context class: the stored pattern itself is structurally singular (the symbolic preprocessing assumes it is not)
+    bool stored_singular = false;
+    { std::vector<int> id(n); for (int j = 0; j < n; ++j) id[j] = j; stored_singular = n > 0 && first_struct_deficient(c.M, id) > 0; }
+    if (stored_singular) out.probes["cfg_structurally_singular_pattern"]++;
+    g_sig_suffix = stored_singular ? "@structurally_singular_pattern" : "";
+    if (!g_sig_suffix.empty() && sim::result_fd >= 0) { std::string t = "T " + g_sig_suffix + "\n"; if (write(sim::result_fd, t.data(), t.size()) < 0) {} }
     x.drv.reset(make_drv(c.prec));
     Drv &drv = *x.drv;
     drv.set_matrix(c.M, c.stype_nr);
@@ -245,12 +549,20 @@ Outcome run_case(Case &c, const RunnerOpts &ro) {
     x.base_perm_c = drv.get_perm_c();
     if (!is_perm(x.base_perm_c, n)) add_viol(out, "C10", "ordering_not_bijection", "get_perm_c result is not a permutation", -1);
 
+    SvxState svx_state;
+    bool last_fact_ok = false;
     for (int opi = 0; opi < (int)c.ops.size(); ++opi) {
         OpSpec &op = c.ops[opi];
         g_op = opi;
+        // reusing factors is only legitimate after a factorization that succeeded
+        if ((op.kind == OP_GSSVX && op.x.fact == 2) || op.kind == OP_GSTRS) {
+            if (!last_fact_ok) { out.excl["op_skipped_no_valid_factors"]++; continue; }
+        }
         for (int i = 0; i < 9; ++i) g_ienv[i] = op.ienv[i];
-        g_sig_suffix = op.ienv[3] < op.ienv[2] ? "@maxsuper_lt_relax" : "";
+        g_sig_suffix = std::string(stored_singular ? "@structurally_singular_pattern" : "") + (op.ienv[3] < op.ienv[2] ? "@maxsuper_lt_relax" : "");
+        if (!g_sig_suffix.empty() && sim::result_fd >= 0) { std::string t = "T " + g_sig_suffix + "\n"; if (write(sim::result_fd, t.data(), t.size()) < 0) {} }
         if (op.ienv[3] < op.ienv[2]) out.probes["cfg_maxsuper_lt_relax"]++;
+        if (prec_is_complex(c.prec) && c.stype_nr && op.x.trans == 2 && (op.kind == OP_GSSVX || op.kind == OP_GSTRS || op.kind == OP_ROUTE)) { g_sig_suffix += "@complex_rowwise_conj"; out.probes["cfg_complex_rowwise_conj"]++; }
         if (op.dyn_snode) setenv("SuperLU_DYNAMIC_SNODE_STORE", "1", 1); else unsetenv("SuperLU_DYNAMIC_SNODE_STORE");
         if (op.values_id != x.cur_values) { drv.set_values(c.values[op.values_id]); x.cur_values = op.values_id; }
         bool first_time = (op.kind == OP_GSSV) || ((op.kind == OP_GSSVX) && op.x.fact != 2 && !op.x.refact) || (op.kind == OP_ROUTE && !op.x.refact);
@@ -258,7 +570,8 @@ Outcome run_case(Case &c, const RunnerOpts &ro) {
         const std::vector<cld> &rhs = c.rhs[op.rhs_id < (int)c.rhs.size() ? op.rhs_id : 0];
         if (op.kind == OP_GSSV || op.kind == OP_GSSVX || op.kind == OP_ROUTE || op.kind == OP_GSTRS) drv.set_rhs(rhs, c.nrhs, c.ldb);
         std::vector<cld> Bin = strip_ld(rhs, n, c.ldb, c.nrhs);
-        uint64_t a_hash0 = drv.A_hash(), b_hash0 = drv.B_hash();
+        uint64_t a_hash0 = drv.A_hash(), b_hash0 = drv.B_hash(), x_hash0 = drv.X_hash();
+        std::vector<cld> A_before = drv.get_A_values();
 
         sim::RunConfig cfg;
         cfg.sched = op.sched; cfg.faults = op.faults; cfg.forced = op.forced; cfg.use_forced = op.use_forced;
@@ -298,11 +611,34 @@ Outcome run_case(Case &c, const RunnerOpts &ro) {
             // parked threads cannot be reused: the process has to end here
             sim::die(sim::END_NORMAL, "threads left");
         }
+        if (ro.verbose) {
+            std::vector<int> pc_ = drv.get_perm_c(), pr_ = drv.get_perm_r();
+            fprintf(stderr, "perm_c:"); for (int v : pc_) fprintf(stderr, " %d", v); fprintf(stderr, "\nperm_r:"); for (int v : pr_) fprintf(stderr, " %d", v); fprintf(stderr, "\n");
+            if (drv.have_LU()) { LUDump d_; drv.dump_LU(d_); Dense L_, U_; if (expand_LU(d_, L_, U_)) { fprintf(stderr, "diag(U):"); for (int i = 0; i < n; ++i) fprintf(stderr, " %.3Lg", absl_(U_.at(i, i))); fprintf(stderr, "\n"); } }
+        }
         if (ro.verbose) fprintf(stderr, "[op %d %s] info=%ld steps=%ld decisions=%ld switches=%ld events=%ld allocs=%ld\n", opi, opkind_name(op.kind), info,
                                 st.steps, st.decisions, st.switches, st.events, st.allocs);
 
+        if (op.kind == OP_GSSV || op.kind == OP_ROUTE || (op.kind == OP_GSSVX && op.x.fact != 2 && op.x.lwork != -1))
+            last_fact_ok = (info == 0) || (op.kind == OP_GSSVX && info == n + 1);
         // ---- oracles
         bool a_same = drv.A_hash() == a_hash0;
+        if (c.profile == "svx" && op.kind == OP_GSSVX) {
+            eval_svx(x, opi, op, xo, A_before, Bin, a_hash0, b_hash0, x_hash0, svx_state);
+            continue;
+        }
+        if (c.profile == "sing") {
+            eval_singular(x, opi, op, info, xo, b_hash0, x_hash0, Bin);
+            if (op.kind != OP_GSSVX && !a_same) add_viol(out, "C06", "A_modified", "driver changed A", opi);
+            if (info == 0 || (op.kind == OP_GSSVX && info == n + 1)) {
+                std::vector<cld> X = op.kind == OP_GSSVX ? drv.get_X() : drv.get_B();
+                eval_factorization(x, opi, op, 0, false, Bin, X, 0, true);
+            }
+            // destroy what was returned (under ASan this is the 'safe to destroy' clause)
+            if (drv.have_LU()) drv.destroy_LU(false);
+            if (op.kind == OP_ROUTE) drv.route_finalize();
+            continue;
+        }
         if (op.kind == OP_GSSV) {
             if (!a_same) add_viol(out, "C01", "A_modified", "simple driver changed A", opi);
             if (info == 0) {
@@ -331,6 +667,6 @@ Outcome run_case(Case &c, const RunnerOpts &ro) {
     }
     monitor_collect(out.viols, -1);
     monitor_probes(out.probes);
-    g_case = nullptr; g_out = nullptr;
+    g_case = nullptr; g_out = nullptr; g_sig_suffix.clear();
     return out;
 }
